@@ -283,7 +283,8 @@ def deep_calls(prog, e, suffix, depth=3):
         nm = short(c[2] or c[1])
         if nm.endswith(suffix) or short(c[1]).endswith(suffix):
             out.append((c, c))
-            continue
+            if suffix:
+                continue
         if depth > 0:
             for name in (c[2], c[1]):
                 r = _helper_return(prog, name) if name else None
